@@ -19,7 +19,8 @@
 (*                           arrangement of chunks written for that key    *)
 (*  D-C19-stale-after-delete a PutPart/GetPart call in flight across a     *)
 (*                           DeletePart may leave the deleted bytes cached *)
-(*  D-C19-inmem-map-race     data race / concurrent-map crash inside the   *)
+(*  D-C19-inmem-map-race     data race / concurrent-map crash / corrupted  *)
+(*                           map (foreign or empty value) inside the       *)
 (*                           in-memory persistor (Store and Remove of an   *)
 (*                           evicted key run outside GenericCache.mu)      *)
 (*  D-C19-lfu-oversize-panic lfu pops its empty heap                       *)
@@ -34,9 +35,10 @@ None == [tok |-> "", n |-> 0]
 Hole == [k |-> "0", v |-> "0", i |-> 0]
 Whole(k, tok, n) == [i \in 1..n |-> [k |-> k, v |-> tok, i |-> i]]
 
-\* abstract state
-AInit == [m |-> [k \in Keys |-> None],            \* generic cache: key -> bound value
-          present |-> [k \in Keys |-> 0],         \* part store: id -> number of chunks stored (0 = absent)
+\* abstract state; P0 = part ids stored initially (with P0n chunks each)
+AInit(P0, P0n) ==
+         [m |-> [k \in Keys |-> None],            \* generic cache: key -> bound value
+          present |-> [k \in Keys |-> IF k \in P0 THEN P0n ELSE 0],  \* part store: id -> number of chunks stored (0 = absent)
           stale |-> [k \in Keys |-> 0],           \* deviation: deleted bytes possibly left in the cache
           toks |-> [k \in Keys |-> {}]]           \* value tokens of Set calls invoked so far
 
@@ -45,6 +47,12 @@ AInit == [m |-> [k \in Keys |-> None],            \* generic cache: key -> bound
 \* intact chunk of another key
 Fragments(A, k, chunks) ==
   \A i \in 1..Len(chunks) : chunks[i] = Hole \/ chunks[i].k = "?" \/ (chunks[i].k = k /\ chunks[i].v \in A.toks[k])
+
+\* The in-memory persistor's Go map is written without synchronisation (D-C19-inmem-map-race).  Besides race
+\* reports and runtime aborts, undetected concurrent writes corrupt the map: observed on the real code are a
+\* Get(k1) that keeps returning the value stored under k2, and a hit with an empty value.  While that
+\* deviation is open, a hit of the in-memory persistor that nothing else explains is attributed to it.
+RacyMap(pers) == Dev("D-C19-inmem-map-race") /\ pers = "mem"
 
 Reject(A) == [ok |-> FALSE, st |-> A, used |-> {}]
 Accept(A, u) == [ok |-> TRUE, st |-> A, used |-> u]
@@ -63,6 +71,7 @@ Lin(A, pers, op, res, others) ==
          ELSE IF A.m[k] # None /\ res.chunks = Whole(k, A.m[k].tok, A.m[k].n) THEN Accept(A, {})
          ELSE IF Dev("D-C19-partial-read") /\ pers = "fs" /\ Fragments(A, k, res.chunks)
               THEN Accept(A, {"D-C19-partial-read"})
+         ELSE IF RacyMap(pers) THEN Accept(A, {"D-C19-inmem-map-race"})
          ELSE Reject(A)
     [] op.kind = "pput" ->
          IF res.st = "ok" THEN Accept([A EXCEPT !.present[k] = op.n], {}) ELSE Reject(A)
@@ -80,6 +89,7 @@ Lin(A, pers, op, res, others) ==
          ELSE IF Dev("D-C19-partial-read") /\ pers = "fs" /\ Fragments(A, k, res.chunks)
                  /\ (A.present[k] > 0 \/ A.stale[k] > 0)
               THEN Accept(A, {"D-C19-partial-read"} \cup (IF A.present[k] = 0 THEN {"D-C19-stale-after-delete"} ELSE {}))
+         ELSE IF RacyMap(pers) THEN Accept(A, {"D-C19-inmem-map-race"})
          ELSE Reject(A)
     [] OTHER -> Reject(A)
 
@@ -88,7 +98,7 @@ Lin(A, pers, op, res, others) ==
 \* made by the caller itself (reading the bytes handed out by Get: the value is published through the racy map)
 RaceExplained(pers, a, b) ==
   LET Unsynced(x) == x.pkg = "cache/persistor/inmemory" /\ x.fn \in {"Store", "Remove"}   \* called outside mu
-      Related(x) == x.pkg \in {"cache/persistor/inmemory", "client"}
+      Related(x) == x.pkg \in {"cache/persistor/inmemory", "client", "unknown"}   \* unknown = stack not restorable
   IN /\ Dev("D-C19-inmem-map-race") /\ pers = "mem"
      /\ (Unsynced(a) /\ Related(b)) \/ (Unsynced(b) /\ Related(a))
 \* site = innermost pithos frame of the crashing goroutine, frames = all its pithos frames ("pkg.fn")
